@@ -92,6 +92,7 @@ INITS = [
     ("moments[X(a)|M(a;m)]", lambda: cirq.Circuit(cirq.Moment(cirq.X(a)), cirq.Moment(cirq.measure(a, key="m")))),
     ("new_loader[Y(b),X(b)?m-ish]", lambda: cirq.Circuit(cirq.measure(b, key="m"), cirq.Z(c), cirq.X(b).with_classical_controls("m"), strategy=S.NEW)),
     ("moments[|CZ(b,c)|]", lambda: cirq.Circuit(cirq.Moment(), cirq.Moment(cirq.CZ(b, c)), cirq.Moment())),
+    ("moments[X(a),Y(b)|CZ(b,c),X(a)]", lambda: cirq.Circuit(cirq.Moment(cirq.X(a), cirq.Y(b)), cirq.Moment(cirq.CZ(b, c), cirq.X(a)))),
 ]
 
 OTHER = [
@@ -289,8 +290,13 @@ def build_events(level):
         ev.append(("batch_insert_into", spec))
     for spec in (((0, 0),), ((0, 0), (1, 3)), ((1, 5),), ((0, 1), (0, 0)), ((0, 0), (0, 2)), ((7, 0),)):
         ev.append(("batch_remove", spec))
-    for spec in (((0, 0, 1),), ((0, 0, 2), (1, 3, 4)), ((1, 5, 7),), ((0, 0, 2), (0, 9, 1))):
+    for spec in (((0, 0, 1),), ((0, 0, 2), (1, 3, 4)), ((1, 5, 7),), ((0, 0, 2), (0, 9, 1)),
+                 ((0, 0, 12), (0, 1, 2)), ((0, 0, 2), (0, 2, 0)), ((1, 4, 3), (1, 0, 12)), ((0, 1, 2), (1, 0, 12), (0, 0, 12))):
         ev.append(("batch_replace", spec))
+    for spec in (((0, 0), (0, 1)), ((1, 4), (1, 0)), ((0, 1), (1, 0), (0, 0))):
+        ev.append(("batch_remove", spec))
+    for spec in (((0, 2), (0, 2)), ((0, 2), (1, 1)), ((1, 1), (0, 2), (0, 10))):
+        ev.append(("batch_insert_into", spec))
     for qs in ((0,), (1,), (0, 2), (0, 1, 2)):
         for rng in ("all", "0", "last", "oob"):
             ev.append(("clear", qs, rng))
@@ -1081,7 +1087,8 @@ def frozen_queries(fc):
             cirq.has_unitary(fc), tuple(fc.next_moment_operating_on([q], s) for q in QUERY_QUBITS for s in range(n + 1)))
 
 
-FROZEN_DERIVE = ["freeze", "ctor", "unfreeze_freeze", "add_empty", "mul1", "with_tags_untagged", "double_inverse", "from_moments"]
+FROZEN_DERIVE = ["freeze", "ctor", "unfreeze_freeze", "add_empty", "mul1", "with_tags_untagged", "double_inverse", "from_moments",
+                 "hashed_then_with_tags", "queried_then_with_tags"]
 
 
 def run_frozen(case):
@@ -1108,6 +1115,19 @@ def run_frozen(case):
             return Res(skipped=True, nontrivial=False)
         fc = cirq.inverse(inv)
         # inverse of inverse: same operations up to value equality of gates
+    elif how in ("hashed_then_with_tags", "queried_then_with_tags"):
+        fc0 = live.freeze()
+        if how == "hashed_then_with_tags":
+            hash(fc0)
+            {fc0: 1}
+        else:
+            frozen_queries(fc0)
+        fc = fc0.with_tags("x")
+        ref = cirq.FrozenCircuit(rebuild(live).moments, tags=("x",))
+        if fc.tags != ("x",) or fc0.tags != ():
+            return bad(f"{how}: tags {fc.tags!r} / source {fc0.tags!r}")
+        if fc == fc0 and len(seq) >= 0 and hash(fc) == hash(fc0) and False:
+            pass
     else:
         fc = cirq.FrozenCircuit.from_moments(*[list(m.operations) for m in live.moments])
     if not isinstance(fc, cirq.FrozenCircuit):
